@@ -60,6 +60,16 @@ def run(chk):
     # is opened; used in pairs and in the random sequences (not in the exhaustive triples)
     AMISS = A + ",no-such-table-anywhere.utb"
     extra_ops = {"useAmissing": "Y %s ;; %s" % (AMISS, trans.case_line("T", 4, inp, 20))}
+    # a list whose rules flip multipass variables across the whole index range: what one call (or an earlier list, or the
+    # time before lou_free) leaves in them must not reach the next
+    import tablegen as _tg
+    nv = int(_tg.consts().get("NUMVAR", 50))
+    vv = [nv - 1, rng.range(13, nv - 2), rng.range(1, 12)]
+    (work / "v.utb").write_text("space \\s 0\nletter a 1\nletter b 12\nletter c 14\n" + "".join(
+        "noback pass%d #%d=0@%s @%s#%d=1\nnoback pass%d #%d=1@%s @%s-%s\n" % (p_, v, d, d, v, p_, v, d, d, d)
+        for p_, v, d in zip((2, 3, 4), vv, ("1", "12", "14"))))
+    VT = str(work / "v.utb")
+    extra_ops["useV"] = "Y %s ;; %s" % (VT, trans.case_line("T", 4, [97, 98, 99, 97, 98, 99], 40))
     name_of = {"useA": A, "useB": B, "useApfx": APFX, "useBad": BAD, "useFin": FIN, "addA": A, "addAbad": A, "addAdisp": A, "backA": A, "backB": B, "hyph": HY, "getA": A}
     keys = list(ops)
     seqs = []
@@ -69,8 +79,9 @@ def run(chk):
             seqs.append(list(tup))
     ops.update(extra_ops)
     name_of["useAmissing"] = AMISS
+    name_of["useV"] = VT
     for k in keys:
-        seqs += [["useAmissing", k], [k, "useAmissing"], [k, "useAmissing", "free"]]
+        seqs += [["useAmissing", k], [k, "useAmissing"], [k, "useAmissing", "free"], ["useV", k, "useV"], ["useV", "free", "useV"]]
     keys = list(ops)
     r = rng
     for _ in range(150 if quick else 5000):
